@@ -60,6 +60,7 @@ def setFacts : List (String × List Nat × List Nat) := [
 def astFacts : List (String × Nat) := [
   ("newUsesCryptoRand", Generated.newUsesCryptoRand),
   ("countedUnderLock", Generated.countedUnderLock),
+  ("shutdownFlagUnderLock", Generated.shutdownFlagUnderLock),
   ("dedupAtomic", Generated.dedupAtomic)]
 
 def main : IO Unit := do
